@@ -8,6 +8,8 @@ META = {
                    "on cmpxchg success; argument validation; plus the traversal filter of next_duplicate (shared with C05).",
     "not_decided": "absence of duplicates under all interleavings",
 }
+
+META["explanation"] += " " + "Also: iterator continuation discipline (a traversal positioned on a replaced node never sees its replacement as well), and del's ownership exchange writes the re-read next word (a committed replace is not overwritten)."
 RULES = [
     ("C06.unique", lambda c, r: lfht.rule_unique(c, r, "C06.unique")),
     ("C06.replace", lambda c, r: lfht.rule_replace(c, r, "C06.replace")),
